@@ -80,6 +80,8 @@ def native_driver(modname, driver, case, timeout_s=3600):
     transcript = (p.stdout[-4000:] + "\n" + p.stderr[-3000:])
     m = re.search(r"VERIF-OBS (\{.*\})\s*$", p.stdout, re.M)
     if not m:
+        if "unknown driver" in p.stdout + p.stderr or "case json" in p.stdout + p.stderr:
+            return None, transcript  # the replay harness itself failed, not the code under test
         if "panicked" in p.stdout + p.stderr and "running 1 test" in p.stdout:
             return {"panicked": True, "panic_text": (p.stdout + p.stderr)[-1500:]}, transcript
         return None, transcript
